@@ -982,7 +982,8 @@ func (fl *Flow) learn(at Atom, st *State) {
 	// condition guards
 	for _, cg := range fl.Spec.Conds {
 		if ok, pass := cg.Match(c, e); ok && pass == at.Val {
-			st.gen(cg.Fact, nil)
+			// the fact is about the variables the atom reads: a later assignment to one of them ends it
+			st.gen(cg.Fact, atomVars(c, e))
 		}
 	}
 	// nil comparisons and boolean results
@@ -1090,4 +1091,24 @@ func ExprStr(e ast.Node) string {
 		return types.ExprString(s.Chan) + " <- " + types.ExprString(s.Value)
 	}
 	return ""
+}
+
+// atomVars lists the local variables and parameters read by a condition atom.
+func atomVars(c *Ctx, e ast.Expr) []types.Object {
+	var out []types.Object
+	seen := map[types.Object]bool{}
+	InspectNode(e, func(x ast.Node) bool {
+		id, ok := x.(*ast.Ident)
+		if !ok {
+			return true
+		}
+		v, ok := c.Info.Uses[id].(*types.Var)
+		if !ok || v.IsField() || v.Pkg() == nil || v.Parent() == v.Pkg().Scope() || seen[v] {
+			return true
+		}
+		seen[v] = true
+		out = append(out, v)
+		return true
+	})
+	return out
 }
